@@ -21,10 +21,10 @@ WideStrs == {BStr(<<>>), BStr(<<0>>), BStr(Txt(23, 0)), BStr(Txt(24, 0)),
 WideTags == {<<>>, <<1>>, <<18>>, <<24>>, Pow(1), FF(8)}
 
 \* map key order: keys of every head size and both string kinds, two pairs per map
-KeyInts == {UInt(<<>>), UInt(<<24>>), UInt(Pow(1)), UInt(Pow(2)), NInt(<<>>), NInt(<<24>>)}
+KeyInts == {UInt(<<>>), UInt(<<24>>), UInt(FF(1)), UInt(Pow(1)), UInt(Pow(2)), NInt(<<>>), NInt(<<24>>)}
 KeyStrs == {TStr(<<>>), TStr(<<98>>), TStr(<<97, 97>>)}
 \* the same for the quick tier (exhaustive over fewer keys)
-KeyIntsQ == {UInt(<<>>), UInt(<<24>>), UInt(Pow(1)), NInt(<<>>), NInt(<<24>>)}
+KeyIntsQ == {UInt(<<>>), UInt(<<24>>), UInt(FF(1)), UInt(Pow(1)), NInt(<<>>), NInt(<<24>>)}
 KeyStrsQ == {TStr(<<>>), TStr(<<97, 97>>)}
 NoTags == {}
 NoSimples == {}
